@@ -844,6 +844,7 @@ func (r *refT) check(o obsT, crossOnly bool) *failure {
 	// values (encoded names) occurring in the rows on which listing and catalog differ: a known cause is only
 	// blamed when the differing rows mention the object it concerns
 	var diffVals map[uint64]bool
+	ordinalOnly := false // COLUMNS differs from the catalog in ORDINAL_POSITION only
 	tableCause := func(dflt string) string {
 		for n, t := range r.Tables {
 			if t.pkGarbled && diffVals[enc(n)] {
@@ -852,7 +853,7 @@ func (r *refT) check(o obsT, crossOnly bool) *failure {
 		}
 		for n, t := range r.Tables {
 			for _, ix := range t.Idx {
-				if ix.Fn != "" && diffVals[enc(n)] && strings.HasSuffix(dflt, "/COLUMNS") {
+				if ix.Fn != "" && diffVals[enc(n)] && strings.HasSuffix(dflt, "/COLUMNS") && ordinalOnly {
 					return "columns/ordinal-position-counts-hidden-functional-index-column"
 				}
 			}
@@ -1102,6 +1103,7 @@ func (r *refT) check(o obsT, crossOnly bool) *failure {
 			}
 		}
 	}
+	ordinalOnly = sameKeys(keys(baseCols.Rows, []int{0, 1, 3, 4, 6, 7}), keys(wantCols, []int{0, 1, 3, 4, 5, 6}))
 	if f := cmp("COLUMNS", baseCols, []int{0, 1, 2, 3, 4, 6, 7}, wantCols, tableCause); f != nil {
 		return f
 	}
